@@ -92,10 +92,22 @@ Abort == /\ IsEv("abort") /\ st \in {"iterating", "maybe"}
 
 (* a numeric estimator (logistic regression by SAGA) "stops at a stationary point": the gradient of   *)
 (* the weighted log-likelihood, recomputed by the recorder from the data at the returned parameters, *)
-(* vanishes up to GTol (per observation); an error return promises nothing                           *)
+(* vanishes up to GTol (per observation); an error return promises nothing, but is itself not        *)
+(* acceptable on the problems the recorder marks well posed (NumericEstimator with newton / rprop on  *)
+(* normal, exponential and gamma families)                                                            *)
+NumericOK(e) == /\ (e.err => ~e.wellposed)      \* well-posed problem (interior maximiser, admissible start): no error
+                /\ (e.err \/ e.gnorm <= GTol * e.n)
 Numeric == /\ IsEv("numeric") /\ st = "idle"
-           /\ (Ev.err \/ Ev.gnorm <= GTol * Ev.n)
+           /\ NumericOK(Ev)
            /\ UNCHANGED <<st, k, likPrev, recPrev, eps, maxSteps>>
+(* A numeric run that breaks the contract is a DEVIATION of the code, named here as an action of its *)
+(* own so that the rest of the trace is still examined: the event is consumed and its position is   *)
+(* printed; the orchestrator turns every printed position into a reported violation (or matches it  *)
+(* with a listed known finding).                                                                     *)
+NumericDeviation == /\ IsEv("numeric") /\ st = "idle"
+                    /\ ~NumericOK(Ev)
+                    /\ PrintT(<<"NUMERIC_DEVIATION", l>>)
+                    /\ UNCHANGED <<st, k, likPrev, recPrev, eps, maxSteps>>
 
 (* two quantities the contract says are equal, observed on two runs of the real estimators: the run  *)
 (* with ChunkSize and the run on sequences cut by hand; DiscreteMixtureEstimator (repeated values     *)
@@ -105,7 +117,7 @@ Twin == /\ IsEv("twin") /\ st = "idle"
         /\ Near(Ev.a, Ev.b)
         /\ UNCHANGED <<st, k, likPrev, recPrev, eps, maxSteps>>
 
-Next == Twin \/ Begin \/ Hook0 \/ HookI \/ HookMaybe \/ Return \/ ReturnErr \/ Abort \/ Numeric
+Next == Twin \/ NumericDeviation \/ Begin \/ Hook0 \/ HookI \/ HookMaybe \/ Return \/ ReturnErr \/ Abort \/ Numeric
 Spec == Init /\ [][Next]_vars
 
 HighWater == TLCSet(1, IF TLCGet(1) < l THEN l ELSE TLCGet(1))
